@@ -1270,6 +1270,20 @@ class MiniInterp:
                 return "/"
             if obj[1] == "re" and attr in ("IGNORECASE", "I", "MULTILINE", "M", "DOTALL", "S", "VERBOSE", "X", "ASCII", "A"):
                 return int(getattr(_re, attr))
+            if obj[1] == "os" and (attr.startswith("O_") or attr in ("linesep", "pathsep", "curdir", "pardir", "extsep", "SEEK_SET", "SEEK_END", "SEEK_CUR")):
+                import os as _os
+                if hasattr(_os, attr):
+                    return getattr(_os, attr)
+            if obj[1] == "stat" and attr.startswith("S_I"):
+                import stat as _stat
+                if isinstance(getattr(_stat, attr, None), int):
+                    return getattr(_stat, attr)
+            if obj[1] == "math" and attr in ("inf", "pi", "e"):
+                import math as _math
+                return getattr(_math, attr)
+            if obj[1] == "sys" and attr == "maxsize":
+                import sys as _sys
+                return _sys.maxsize
             return T("external", f"{obj[1]}.{attr}")
         if isinstance(obj, tuple) and obj and obj[0] == "super":
             _, me, cls_ = obj
@@ -1446,7 +1460,7 @@ class MiniInterp:
                 del obj[hits[0]]
                 return None
             if attr in ("join", "extend", "update", "fromkeys"):
-                args = [a.rest() if isinstance(a, _Iter) else list(a.xs) if isinstance(a, ISet) else a for a in args]
+                args = [a.rest() if isinstance(a, (_Iter, LazyIter)) else list(a.xs) if isinstance(a, ISet) else a for a in args]
             try:
                 if isinstance(obj, dict) and attr in ("get", "pop", "setdefault") and args:
                     args = [self.key(args[0])] + args[1:]
